@@ -215,8 +215,9 @@ def main():
         if all(b is not None for b in bs) and (ob[0] != 'Ok' or ob[1] is not None):
             add(f'KBounds {listlit([bndlit(b) for b in bs])} {reslit(ob, bndlit)}', {'k': 'bounds', 'multi': [kind, list(pm)], 'bs': bs, 'obs': ob})
         # split: members in order, each with the parent's dt and a copy of the parent's properties
-        for dts in (None, ('i', 2), ('v', 1, 3)):
-            props = {'name': 'parent', 'n': len(pm)}
+        # (the parent's properties also EMPTY: parts of a parent that carries nothing carry nothing - neither their own
+        # earlier time bounds nor their own properties)
+        for dts, props in [(d_, p_) for d_ in (None, ('i', 2), ('v', 1, 3)) for p_ in ({'name': 'parent', 'n': len(pm)}, {})]:
             Md = mk(kind, pm, dt=mk_dt(dts), properties=dict(props))
             memd = [POOLS[kind][0][n]() for n in pm]
             for k_, m_ in enumerate(memd):
